@@ -88,6 +88,12 @@ pub fn run(seed: u64, count: usize, thorough: bool, out: &mut Out) {
                 file.extend_from_slice(&m);
                 file.push(b'\n');
                 emit(out, &file, opts, level, &format!("file+line:{name}"));
+                if rng.chance(1, 3) {
+                    // the same after empty lines: every diagnostic still has to quote the line at its number
+                    let mut shifted = (*rng.pick(&["\n", "\n\n", "\r\n", "REMARK   2\n\n"])).as_bytes().to_vec();
+                    shifted.extend_from_slice(&file);
+                    emit(out, &shifted, opts, level, &format!("empty-lines+file+line:{name}"));
+                }
             }
         }
     }
